@@ -223,8 +223,45 @@ def scipy_case(case):
     return r
 
 
+def events_case(case):
+    """'events ... are those of the underlying system', with t_eval: the facade integrates from output time to output time; the events it reports must be the
+    events of the plain run (no t_eval) - same functions, same times, each crossing once - also when roots lie exactly on output times"""
+    de, I = _imports()
+    r = Res()
+    meth = case["method"]
+    t0, tf = case["span"]
+
+    def f(t, y, **kw):
+        return np.array([y[1], -y[0]])
+
+    def clock(t, y, **kw):
+        return np.asarray(np.cos(np.pi * t))              # roots at 0.5, 1.5, ... (on the output grid)
+
+    def pos(t, y, **kw):
+        return np.asarray(y[0] - 0.25)
+    y0 = np.array([np.sin(t0), np.cos(t0)])
+    r.n = 1
+    try:
+        plain = de.solve_ivp(f, [t0, tf], y0.copy(), method=meth, events=[clock, pos], atol=1e-9, rtol=1e-9)
+        res = de.solve_ivp(f, [t0, tf], y0.copy(), method=meth, t_eval=np.array(case["t_eval"]), events=[clock, pos], atol=1e-9, rtol=1e-9)
+    except Exception as e:
+        r.v("C18/%s/raises" % meth, "solve_ivp serves a valid request", case, observed=repr(e)[:200], expected="a result")
+        return r
+    key = "C18/%s" % meth
+    if np.asarray(res.t).shape != (len(case["t_eval"]),) or float(np.max(np.abs(np.asarray(res.t) - np.sort(np.asarray(case["t_eval"]))))) > 64 * 2.2e-16 * 8:
+        r.v(key + "/t_eval", "with t_eval it returns exactly those times (sorted)", case, observed=[float(x) for x in np.asarray(res.t)][:12], expected=sorted(case["t_eval"])[:12])
+    for fn, label in ((clock, "clock"), (pos, "position")):
+        a_ = sorted(float(e.t) for e in plain.t_events if e.event is fn)
+        b_ = sorted(float(e.t) for e in res.t_events if e.event is fn)
+        # (the two runs take different steps, so a root is located to the accuracy of each run: the same crossings, once each, at about the same times)
+        if len(a_) != len(b_) or (a_ and max(abs(x - y) for x, y in zip(a_, b_)) > 0.05):
+            r.v(key + "/events", "events are those of the underlying system (the same with and without t_eval)", dict(case, function=label), observed=b_[:12], expected=a_[:12])
+    r.out(("events", meth, len(case["t_eval"])))
+    return r
+
+
 def run_case(case):
-    return dict(facade=facade_case, args=args_case, scipy=scipy_case)[case["section"]](case)
+    return dict(facade=facade_case, args=args_case, scipy=scipy_case, events=events_case)[case["section"]](case)
 
 
 def run(ctx):
@@ -292,6 +329,10 @@ def run(ctx):
             for (fs, ms) in ((0.5, 0.1), (0.1, 0.1), (0.05, 0.1), (0.25, 0.125)):
                 for tol in (1e-6, 1e-8):
                     cases.append(dict(section="facade", method=nm, span=list(span), shape=[2], t_eval=None, dense=False, tol=tol, max_step=ms, first_step=fs, by_hand=True))
+    # S4c: events together with t_eval (roots on the output times, between them; sorted and shuffled output times)
+    for nm in ("RK45", "RK87", "RK4", "DOPRI45"):
+        for tev in ([0.25 * k for k in range(1, 25)], [0.5, 1.5, 2.5, 3.5, 4.5, 5.5, 6.0], [0.3, 1.1, 2.9, 4.7, 6.0], [3.5, 0.5, 6.0, 2.5, 1.5, 5.5, 4.5]):
+            cases.append(dict(section="events", method=nm, span=[0.0, 6.0], t_eval=tev))
     # S5: scipy
     for nm, sp in (("RK45", "RK45"), ("DOPRI45", "RK45"), ("RK87", "DOP853"), ("RK108", "DOP853"), ("RadauIIA5", "Radau")):
         for span in fwd + [(1.0, -1.0)]:
